@@ -203,7 +203,7 @@ def run(ctx):
     exe = ctx.build_harness("mem_harness", san=True, wrap=True)
     fe = FaultEnum(ctx, exe)
     quick = ctx.tier != "thorough"
-    total_budget = 1900 if quick else 20000
+    total_budget = 2800 if quick else 20000
     used = 0
     skipped = []
     hist = []
